@@ -165,6 +165,13 @@ def body(ctx):
                     specs.append(dict(seed=ctx.seed + 100 + k, maxdata=65536, rid='random', frag='whole',
                                       ops=[dict(api='push', size=n, src=src, path='/sdcard/g%d' % k, mtime=5, cb=cb, src_offset=(3, 4096)[k % 2], src_short=(None, 1000)[(k // 2) % 2])]))
                     labels.append('source=pre-read %s cb=%s' % (src, cb))
+    # a source whose st_size says nothing about how much will come out of it (a named pipe), with and without a callback
+    for cb in (None, 'ok', 'raise'):
+        for n in (1, 70000, 200000):
+            k += 1
+            specs.append(dict(seed=ctx.seed + 100 + k, maxdata=rng.choice([4096, 262144]), rid='random', frag='whole',
+                              ops=[dict(api='push', size=n, src='fifo', path='/sdcard/pipe%d' % k, mtime=5, cb=cb)]))
+            labels.append('source=named pipe cb=%s' % cb)
     for cwd in ('inside', 'elsewhere'):
         for files in ([('a.txt', 10)], [('a.txt', 0), ('b.bin', 5000), ('c', 70000)], []):
             k += 1
